@@ -365,6 +365,8 @@ def rest(ctx, chk):
     c01.construction_sites(ctx, chk)
     # prerequisite: count algebra of the sampler (group sizes) and mirror lint of the class
     c11.count_algebra(ctx, chk)
+    from . import c10
+    c10.purity(ctx, chk, only=("GroupScores.",), strict=False)
     for q in (INITQ, GROUP + ".swap", GIQ, BSQ, GROUP + ".from_labels"):
         f = ctx.db.function(q)
         n, finds = lint(f.node)
